@@ -5,7 +5,7 @@ Every row cites where the rule is documented; nothing is scraped from the valida
 `target class` selects the positions: any instance of that class reachable from the object (any variant in the forest, any
 image in any cell, any section object)."""
 
-EDIT_ALPHABET = ["0", "7", "a", "A", ".", "-", "_", " ", ",", ":", "x"]
+EDIT_ALPHABET = ["0", "7", "a", "A", ".", "-", "_", " ", ",", ":", "x", "\n"]      # a line break is a character like any other (FX-21)
 LABEL_NAMES = ["EA", "DevelPhaseExit", "InternalAlpha", "Alpha", "InternalSnapshot", "Beta", "Snapshot", "RC", "Update", "SecurityFix"]
 
 
